@@ -42,9 +42,13 @@ func parserArmTypes(c *Ctx) (map[string]string, map[string]string, bool) {
 			cc := st.(*ast.CaseClause)
 			typ := ""
 			conditional := false
+			leavesEarly := false // a statement seen so far can leave the arm (break, return, goto ...)
 			for _, bs := range cc.Body {
 				as, ok := bs.(*ast.AssignStmt)
 				if !ok {
+					if armCanLeave(bs) {
+						leavesEarly = true
+					}
 					// an assignment nested in control flow does not count as "on every path"
 					ast.Inspect(bs, func(m ast.Node) bool {
 						if a2, ok := m.(*ast.AssignStmt); ok {
@@ -60,6 +64,12 @@ func parserArmTypes(c *Ctx) (map[string]string, map[string]string, bool) {
 				}
 				for i, lhs := range as.Lhs {
 					if s, ok := lhs.(*ast.SelectorExpr); ok && s.Sel.Name == "value" && i < len(as.Rhs) {
+						if leavesEarly {
+							// an earlier statement of the arm can leave it before this assignment: the
+							// value stays nil on that path
+							conditional = true
+							continue
+						}
 						if tv, ok := p.TypesInfo.Types[as.Rhs[i]]; ok {
 							typ = types.TypeString(types.Default(tv.Type), qual)
 						}
@@ -83,6 +93,45 @@ func parserArmTypes(c *Ctx) (map[string]string, map[string]string, bool) {
 	return arm, byValue, len(arm) > 0
 }
 
+// armCanLeave: the statement contains a break (of the enclosing switch), return, goto, continue
+// or fallthrough that ends the arm before its following statements run.
+func armCanLeave(st ast.Stmt) bool {
+	leaves := false
+	var walk func(n ast.Node, inBreakable, inLoop bool)
+	walk = func(n ast.Node, inBreakable, inLoop bool) {
+		ast.Inspect(n, func(m ast.Node) bool {
+			switch x := m.(type) {
+			case *ast.FuncLit:
+				return false
+			case *ast.ReturnStmt:
+				leaves = true
+			case *ast.BranchStmt:
+				switch {
+				case x.Label != nil, x.Tok == token.GOTO, x.Tok == token.FALLTHROUGH && !inBreakable:
+					leaves = true
+				case x.Tok == token.BREAK && !inBreakable:
+					leaves = true
+				case x.Tok == token.CONTINUE && !inLoop:
+					leaves = true
+				}
+			case *ast.ForStmt, *ast.RangeStmt:
+				if m != n {
+					walk(m, true, true)
+					return false
+				}
+			case *ast.SwitchStmt, *ast.TypeSwitchStmt, *ast.SelectStmt:
+				if m != n {
+					walk(m, true, inLoop)
+					return false
+				}
+			}
+			return true
+		})
+	}
+	walk(st, false, false)
+	return leaves
+}
+
 func checkC14(c *Ctx, r *Report) {
 	const pkg = "transport/ardop"
 	p := c.Pkg(pkg)
@@ -92,6 +141,7 @@ func checkC14(c *Ctx, r *Report) {
 	}
 	qual := func(pk *types.Package) string { return pk.Name() }
 
+	borrowRule(c, r, "C14-borrow", pkg)
 	// ---- C14-types
 	r.Rule("C14-types", 12, "type assertions on control message values match the parser")
 	_, armByValue, ok := parserArmTypes(c)
